@@ -488,7 +488,10 @@ func c18Migrate(w *kernel.World, s *Session, model *Model, rng *kernel.RNG) {
 	// acra-keys migrate: keys that cannot be imported are skipped and reported at the end ("Incomplete key
 	// import"); files of the history directories are among them. What is asserted is the outcome: every
 	// current key of the source is in the target with the same value.
+	// (the migration walks the exported keys in the order of a Go map)
+	w.BeginUnordered()
 	merr, pv := Guard(func() error { return acrakeys.MigrateV1toV2(s.H.V1, h2.V2) })
+	w.EndUnordered()
 	if pv != nil {
 		w.Violate("C18", "no-panic", "migrate/import", fmt.Sprint(pv))
 		return
